@@ -17,6 +17,9 @@ from common import gz, gnat, gbool, glist, gpair
 
 IMPORTS = 'From SV Require Import Model.LocalOps.\n'
 IMPORTS_GEN = 'From SV Require Import Model.LocalOps Gen.LocalOpsData.\n'
+# translator tie of the ALGORITHM: Gen/LocalAlgGen.v is build_local_fermionic_elements itself, statement by statement
+# (own shard: Gen.OpOrder and Model.LocalOps both define `op` / `label`)
+IMPORTS_ALG = 'From SV Require Import Base.PyList Gen.OpOrder Gen.LocalAlgGen.\n'
 
 
 # ====================================================================== independent oracle
@@ -162,6 +165,52 @@ def gen_case(rng, thorough=False):
     return {'kind': kind, 'labels': labs, 'terms': terms, 'bases': bases, 'flavour': flavour}
 
 
+def gen_special_case(rng):
+    """legal inputs the uniform generator reaches only rarely: partial bases without a fully occupied state
+    (no-double-occupancy t-J site, one-particle sector of a 3-orbital site) and operator strings that hit one mode
+    three or more times with alternating daggers (n.n, a+ a a+ a, hop-back-hop), as products of ordinary operators
+    expanded term by term contain them"""
+    kind, labs = make_labels(rng, 4)
+    which = rng.choice(['tJ', 'one_particle', 'nn', 'nn', 'hop_back_hop'])
+    n = lambda m: [(m, True), (m, False)]
+    hop = lambda i, j: [(i, True), (j, False)]
+    coef = lambda: rng.choice([-3, -2, -1, 1, 2, 3])
+    if which == 'tJ':
+        au, ad, bu, bd = labs
+        site = lambda u, d: [[], [(d, True)], [(u, True)]]
+        bases = [site(au, ad), site(bu, bd)]
+        for b in bases:
+            rng.shuffle(b)
+        terms = [(coef(), hop(au, bu)), (coef(), hop(bu, au)), (coef(), hop(ad, bd)), (coef(), hop(bd, ad)),
+                 (coef(), n(au) + n(bd)), (0, hop(au, bd)), (coef(), n(ad))]
+        rng.shuffle(terms)
+        terms = terms[:rng.randint(3, len(terms))]
+    elif which == 'one_particle':
+        x, y, z, w = labs
+        b0 = [[(y, True)], [(x, True)], [(z, True)]]
+        rng.shuffle(b0)
+        bases = [b0] if rng.random() < 0.5 else [b0, [[], [(w, True)]]]
+        terms = [(coef(), hop(x, z)), (coef(), hop(z, x)), (coef(), hop(x, y)), (coef(), n(y)), (coef(), hop(w, x) + hop(x, w))]
+        rng.shuffle(terms)
+        terms = terms[:rng.randint(2, len(terms))]
+    else:
+        a, b = labs[0], labs[1]
+        full = lambda ms: [[(m, True) for m in sub] for r in range(len(ms) + 1) for sub in itertools.combinations(ms, r)]
+        bases = [full([a, b])] if rng.random() < 0.5 else [full([a]), full([b])]
+        for bb in bases:
+            rng.shuffle(bb)
+        if which == 'nn':
+            pool = [n(a) + n(a), n(a) + n(b) + n(a), n(a) + n(a) + n(a), [(a, False), (a, True), (a, False), (a, True)],
+                    n(b) + n(b), n(a) + hop(a, b) + n(b)]
+        else:
+            pool = [hop(a, b) + hop(b, a) + hop(a, b), hop(b, a) + hop(a, b) + hop(b, a), hop(a, b) + hop(b, a),
+                    hop(a, b) + n(b) + hop(b, a)]
+        terms = [(coef(), list(rng.choice(pool))) for _ in range(rng.randint(1, 3))]
+        if rng.random() < 0.5:
+            terms.insert(rng.randrange(len(terms) + 1), (rng.choice([0, 1, -2]), hop(a, b)))
+    return {'kind': kind, 'labels': labs, 'terms': terms, 'bases': bases, 'flavour': 'special_' + which}
+
+
 def rank_map(case):
     """order-isomorphic relabelling label -> rank (uses Python's own ordering of the labels)"""
     labs = set(case['labels'])
@@ -201,6 +250,40 @@ def gterms(terms):
 
 def gbases(bases):
     return glist([glist([glist([gop(o) for o in st]) for st in b]) for b in bases])
+
+
+def glabel(l):
+    """a Python label as the `list Z` of Gen/OpOrder.v: int n -> [n], str -> code points, tuple of ints -> its entries"""
+    if isinstance(l, bool):
+        raise ValueError('label %r' % (l,))
+    if isinstance(l, int):
+        return glist([gz(l)])
+    if isinstance(l, str):
+        return glist([gz(ord(ch)) for ch in l])
+    if isinstance(l, tuple) and all(isinstance(x, int) and not isinstance(x, bool) for x in l):
+        return glist([gz(x) for x in l])
+    raise ValueError('label %r' % (l,))
+
+
+def galg_op(o):
+    return gpair(glabel(o[0]), gbool(o[1]))
+
+
+def galg_terms(terms):
+    return glist([gpair(gz(c), glist([galg_op(o) for o in ops])) for c, ops in terms])
+
+
+def galg_bases(bases):
+    return glist([glist([glist([galg_op(o) for o in st]) for st in b]) for b in bases])
+
+
+def alg_expr(case, got):
+    """generated build_local_fermionic_elements (Gen/LocalAlgGen.v) on the case's OWN labels = the dict the
+    implementation returned, item by item in insertion order"""
+    fuel = gnat(fuel_for(case['terms'], case['bases']))
+    items = glist([gpair(glist([gz(i) for i in k]), gz(as_int(v))) for k, v in got.items()])
+    return ('match build_local_fermionic_elements_gen %s %s %s with Some d => list_eqb (pair_eqb (list_eqb Z.eqb) Z.eqb) d %s '
+            '| None => false end' % (fuel, galg_terms(case['terms']), galg_bases(case['bases']), items))
 
 
 def fuel_for(terms, bases):
@@ -699,7 +782,7 @@ def run(ctx):
 
     # ---------------- 1. elements: implementation vs Coq model / Coq reference / numpy JW oracle
     ncases = 2500 if ctx.thorough else 500
-    strict_e, ref_e, cases = [], [], []
+    strict_e, ref_e, alg_e, cases = [], [], [], []
     stats = {'sites': {1: 0, 2: 0, 3: 0}, 'flavour': {}, 'label_kind': {}, 'nonzero_elements': 0, 'negative_elements': 0,
              'elements': 0, 'cases_with_cancelling_or_multi_term_entries': 0}
     corpus = []
@@ -711,7 +794,7 @@ def run(ctx):
     for i in range(ncases):
         if hard_failures >= 3:      # non-termination / crashes: three concrete inputs are enough
             break
-        case = gen_case(rng, ctx.thorough)
+        case = gen_special_case(rng) if i % 6 == 5 else gen_case(rng, ctx.thorough)
         T, B = to_impl(case, FermionicOperator, rng)
         payload = replay_payload(case)
         try:
@@ -746,12 +829,19 @@ def run(ctx):
         s, r = coq_exprs(case, got)
         strict_e.append(s)
         ref_e.append(r)
+        alg_e.append(alg_expr(case, got))
         cases.append(payload)
         if i < 3:
             ctx.sample({'terms': payload['terms'], 'bases': payload['bases'], 'entries': {str(k): v for k, v in got.items()}})
     bad_ref = common.run_cases(ctx, 'ref', IMPORTS, '', ref_e, shard=40)
     bad_strict = common.run_cases(ctx, 'model', IMPORTS, '', strict_e, shard=40)
-    ctx.count(len(ref_e) + len(strict_e))
+    bad_alg = common.run_cases(ctx, 'alg', IMPORTS_ALG, '', alg_e, shard=40)
+    ctx.count(len(ref_e) + len(strict_e) + len(alg_e))
+    if bad_alg is None:
+        tie_broken.append('cases.v (Gen/LocalAlgGen.v, the translated build_local_fermionic_elements, vs implementation) did not evaluate')
+    elif bad_alg:
+        tie_broken += ['Gen.LocalAlgGen.build_local_fermionic_elements_gen disagrees with build_local_fermionic_elements on case %d '
+                       '(terms %s, bases %s)' % (i, json.dumps(cases[i]['terms']), json.dumps(cases[i]['bases'])) for i in bad_alg[:3]]
     if bad_ref is None:
         tie_broken.append('cases.v (Coq reference semantics vs implementation) did not evaluate')
     elif bad_ref:
@@ -864,13 +954,15 @@ def run(ctx):
     ctx.coverage['rule'] = (
         'elements: random term lists (integer coefficients incl. 0, strings of length 0-6 over <=4 modes, repeated operators, '
         'operators given as FermionicOperator or (label, symbol)), labels int/negative int/str/tuple, 1-3 sites, bases = full / '
-        'subset / junk (annihilators, repeated, cross-site) occupation states in random order with random operator order; every '
+        'subset / junk (annihilators, repeated, cross-site) occupation states in random order with random operator order; every sixth '
+        'case structured: no-double-occupancy / one-particle-sector bases, strings hitting one mode >= 3 times (n.n, hop-back-hop); every '
         'element of the index grid compared (absent key = 0). non-trivial = at least one non-zero element and a term of length>=2 '
         'with non-zero coefficient; distinct by (ranked terms, ranked bases). arrays: Z2/U1 spinless, Z2/U1/Z2Z2/U1U1 spinful, '
         '1-3 sites, complete bases (documented and shuffled), Hermitian conserving term sets; the five builders with exactly '
         'representable parameters')
     ctx.extra['tie'] = {'element_cases_vs_coq_reference': len(ref_e), 'element_cases_vs_coq_model_strict': len(strict_e),
-                        'array_cases': narr, 'builder_cases': nb, 'generated_data_cases': len(gen_e)}
+                        'array_cases': narr, 'builder_cases': nb, 'generated_data_cases': len(gen_e),
+                        'generated_algorithm_cases': len(alg_e)}
     ctx.extra['distribution'] = {'elements': stats, 'arrays': arr_stats}
     ctx.note('labels are replaced by their rank under Python\'s own ordering before they reach the Coq model (order isomorphism; '
              'the library uses labels only through > and dict-key equality)')
